@@ -317,6 +317,21 @@ def reuse(fmt, model, text0, ob1, out):
                 if bd.observe(again) != ob1:
                     out.append(Fail('reader-reuse:after-failed-transform', {'want': cm._safe_str(ob1), 'read': cm._safe_str(bd.observe(again))}))
                     return
+        # --- a bare relative file name as destination and as source
+        bad = cm.bare_name_write(fmt.writer_cls, bd.build(model), fmt.ext, text0)
+        if bad is not None:
+            out.append(bad)
+            return
+        cwd = os.getcwd()
+        try:
+            os.chdir(os.path.dirname(pa))
+            _put(pa, text0)
+            rel_ob = bd.observe(fmt.reader_cls(os.path.basename(pa)).transform())
+        finally:
+            os.chdir(cwd)
+        if rel_ob != ob1:
+            out.append(Fail('relative-source:different-model', {'absolute': cm._safe_str(ob1), 'relative': cm._safe_str(rel_ob)}))
+            return
         # --- one writer object: twice, after an in-place edit, after a failing call
         fm = bd.build(model)
         wr = fmt.writer_cls(pa, fm)
@@ -484,15 +499,43 @@ def canon_order(model):
     return rec(model[0])
 
 
+def align_models(tier):
+    """Documents longer than the usual I/O buffer sizes whose names consist of 2-, 3- and 4-byte
+    UTF-8 characters, shifted byte by byte (64 root-name lengths): for every buffer boundary some
+    shift puts a multi-byte character across it.  Flat models (every child optional), expressible in
+    every format."""
+    F, R, M = sh.F, sh.R, sh.M
+    sizes = (160,) if tier == 'quick' else (160, 330, 700, 2800)
+    heads = ('\u00e9', '\u65e5', '\U0001f642', '\u00fc\u672c')
+    out = []
+    for n in sizes:
+        for k in range(64):
+            kids = [R(0, 1, [F('%s%d%s' % (heads[i % 4], i, heads[(i + 1) % 4]))]) for i in range(n)]
+            out.append(M(F('R' + 'x' * k, kids)))
+    return out
+
+
 def collision_models():
     """Models whose distinct names collide under common normalisations (letter case, Unicode
     composition, surrounding blanks, quotes): every pair must stay two features."""
     F, R, M = sh.F, sh.R, sh.M
     pairs = [('Caf\u00e9', 'Cafe\u0301'), ('Wifi', 'WIFI'), ('ab', ' ab'), ('ab', 'ab '), ('a b', 'a  b'), ('\u212b', '\u00c5'),
-             ('x1', 'x\u0661'), ('ab', '"ab"'), ('a_b', 'a-b'), ('Data Base', 'DataBase'), ('GPS', 'gps')]
+             ('x1', 'x\u0661'), ('ab', '"ab"'), ('a_b', 'a-b'), ('Data Base', 'DataBase'), ('GPS', 'gps'),
+             ('Gr\u00f6\u00dfe', 'Gr\u00f6sse'), ('\u039f\u03b4\u03cc\u03c2', '\u039f\u03b4\u03cc\u03c3'), ('Engine', 'engine'), ('Cpu', 'CPU')]
     out = []
+    ctcs = lambda a, b: [('c1', ('REQUIRES', a, b)), ('c2', ('EXCLUDES', b, 'Dc')), ('c3', ('IMPLIES', a, 'Bb')), ('c4', ('IMPLIES', b, 'Bb')),  # noqa: E731
+                         ('c5', ('IMPLIES', a, 'Bb'))]
     for a, b in pairs:
+        # both optional, one with a mandatory and one with an optional child
         out.append(M(F('Fa', [R(0, 1, [F(a, [R(1, 1, [F('Ca')])])]), R(0, 1, [F(b, [R(0, 1, [F('Cb')])])]), R(0, 1, [F('Bb')]), R(0, 1, [F('Dc')])]),
-                     [('c1', ('REQUIRES', a, b)), ('c2', ('EXCLUDES', b, 'Dc')), ('c3', ('IMPLIES', a, 'Bb')), ('c4', ('IMPLIES', b, 'Bb')),
-                      ('c5', ('IMPLIES', a, 'Bb'))]))
+                     ctcs(a, b)))
+    for a, b in pairs:
+        # siblings held by relations of different kinds, both with optional children (two variation points)
+        out.append(M(F('Fa', [R(1, 1, [F(a, [R(0, 1, [F('Ca')])])]), R(0, 1, [F(b, [R(0, 1, [F('Cb')])])]), R(0, 1, [F('Bb')]), R(0, 1, [F('Dc')])]),
+                     ctcs(a, b)[2:]))
+        # both always selected, both with always-selected descendants
+        out.append(M(F('Fa', [R(1, 1, [F(a, [R(1, 1, [F('Ca')])])]), R(1, 1, [F(b, [R(1, 1, [F('Cb', [R(2, 2, [F('Cc'), F('Cd')])])])])]), R(0, 1, [F('Bb')])])))
+        # members of one group
+        out.append(M(F('Fa', [R(1, 2, [F(a), F(b), F('Bb')]), R(1, 1, [F('Dc')])]), [('c1', ('IMPLIES', a, 'Bb'))]))
+        out.append(M(F('Fa', [R(1, 1, [F('Gp', [R(1, 1, [F(a), F(b), F('Bb')])])]), R(0, 1, [F('Dc')])]), [('c1', ('IMPLIES', a, 'Dc'))]))
     return out
